@@ -18,7 +18,7 @@ INFO = {
     "launches whose extent is not an expression over model / data sizes (tile sizes, per-level tree arrays): the thread-id indexed accesses of those launches are skipped",
     "'never crashes' beyond array bounds, and rejection of invalid configurations by put_model / make_data (numpy host code)",
     "kernels listed in contracts/scope_C17.txt are outside the dialect",
-    "the (kernel, formal, dimension) subscripts listed in contracts/bounds_needs_wf.txt (126 of about 3000; mostly contact.efc_address[.., k] against the contact dimension, sparse row tables, tree-level and flex tables) need facts about stored data and are not claimed",
+    "the (kernel, formal, dimension, lower/upper side) bounds listed in contracts/bounds_needs_wf.txt (277; mostly contact.efc_address[.., k] against the contact dimension, sparse row tables, tree-level and flex tables) need facts about stored data and are not claimed",
   ],
 }
 
